@@ -169,6 +169,7 @@ type Result struct {
 	Forky    bool // >= 2 distinct proposals seen at some height
 	MultiView bool // correct nodes committed one height in different views
 	ByzWeightOK bool
+	TailViews int
 }
 
 // sched holds the per-case network behaviour.
